@@ -532,6 +532,21 @@ def gen_limits(ctx):
         yield f'dense[{k}]', build(atoms, bonds)
 
 
+def lattice(n, steps):
+    """n atoms 1..n, bond k -- k+s for every s in steps: large packs (offsets beyond 65535 bytes)"""
+    atoms = [{'n': k + 1, 'z': 6 + (k % 3)} for k in range(n)]
+    bonds = [(k + 1, k + s + 1, 1 + ((k + s) % 3)) for k in range(n) for s in steps if k + s < n]
+    return build(atoms, bonds)
+
+
+def gen_big(ctx):
+    yield 'lattice[4095;1]', lattice(4095, (1,))
+    yield 'lattice[4095;1,16,256]', lattice(4095, (1, 16, 256))
+    if not ctx.quick:
+        yield 'lattice[3000;1,2,3,4,5,6]', lattice(3000, (1, 2, 3, 4, 5, 6))
+        yield 'lattice[4095;1,2,3,4,5,6,7]', lattice(4095, (1, 2, 3, 4, 5, 6, 7))
+
+
 STEREO_SMILES = ['C/C=C/C', 'C/C=C\\C', 'C/C=C/C=C\\C', 'F/C=C/C=C/C=C\\Cl', 'C/C=C=C=C/C', 'C/C=C=C=C\\C', 'CC=[C@]=CC',
                  'CC=[C@@]=CC', 'N[C@@H](C)C(=O)O', 'N[C@H](C)C(=O)O', 'F[C@](Cl)(Br)I', 'C[C@H]1CC[C@@H](C)CC1',
                  'OC[C@H]1OC(O)[C@H](O)[C@@H](O)[C@@H]1O', 'C/C=C/[C@H](O)/C=C\\C', 'C1CCC/C=C/CC1', 'C/C(F)=C(/Cl)Br',
@@ -617,7 +632,8 @@ def add_mol_cases(batch, name, mol, sample=False):
     rp = real_pack(mol)
     ctx.dist('atoms<=%d' % (10 ** len(str(max(len(mol._atoms), 1)))))
     ctx.dist('bonds%%8=%d' % ((sum(len(x) for x in mol._bonds.values()) // 2) % 8))
-    sus = {'kind': 'mol', 'name': name, 'mol': mol_to_json(mol)}
+    sus = ({'kind': 'mol', 'name': name, 'mol': mol_to_json(mol)} if not name.startswith('lattice[') else
+           {'kind': 'lattice', 'atoms': len(mol._atoms), 'steps': [int(v) for v in name.split(';')[1].rstrip(']').split(',')]})
 
     def c_pack(res):
         if res[0] != rp[0] or res[1] != rp[1]:
@@ -689,7 +705,7 @@ def add_mol_cases(batch, name, mol, sample=False):
 def corr_molecules(ctx):
     b = Batch(ctx)
     k = 0
-    for gen in (gen_limits, gen_real):
+    for gen in (gen_limits, gen_real, gen_big):
         for name, mol in gen(ctx):
             add_mol_cases(b, name, mol, sample=(k % 97 == 0))
             k += 1
@@ -700,9 +716,39 @@ def corr_molecules(ctx):
 
 
 def rxn_parts(ctx):
+    """molecule pool for reactions: every bond-count residue mod 8 (0 included: 8, 16, 24 bonds), with and without
+    cis/trans blocks, isotopes/charges/stereo; the scan of `pack_len` walks over all but the last molecule."""
     from .. import molgen
-    pool = [m for s in ['C', 'CC=O', 'O', 'CCO', 'C/C=C/C', 'N[C@@H](C)C(=O)O', '[Na+]', 'c1ccccc1', '[13CH4]', 'C/C=C\\C'] if (m := molgen.parse(s))]
+    if 'rxn_pool' in _state:
+        return _state['rxn_pool']
+    pool = [m for s in ['C', 'CC=O', 'O', 'CCO', 'C/C=C/C', 'N[C@@H](C)C(=O)O', '[Na+]', 'c1ccccc1', '[13CH4]', 'C/C=C\\C',
+                        'C/C=C/C=C/C=C/CC', 'C/C=C/CCCCCC/C=C\\CCCCCC', 'F/C=C/C=C/C=C\\CCCCCCCCCCCCCCCCCC']
+            if (m := molgen.parse(s))]
+    for nb in list(range(0, 18)) + [23, 24, 25, 32, 40]:
+        pool.append(build([{'n': k + 1, 'z': 6, 'h': 2} for k in range(nb + 1)],
+                          [(k + 1, k + 2, 1 + (k % 3 == 0)) for k in range(nb)], calc=True))
+        if nb >= 3:   # ring closure: same atom count, one more bond
+            pool.append(build([{'n': 2 * k + 3, 'z': 7 if k % 4 == 0 else 6} for k in range(nb)],
+                              [(2 * k + 3, 2 * ((k + 1) % nb) + 3, 1) for k in range(nb)], calc=True))
+    _state['rxn_pool'] = pool
     return pool
+
+
+def rxn_shapes(ctx):
+    rng = ctx.rng
+    shapes = [(r, g, p) for r in range(0, 4) for g in range(0, 4) for p in range(0, 4) if r + g + p]  # the constructor rejects (0,0,0)
+    shapes += [(rng.randint(0, 6), rng.randint(0, 6), rng.randint(0, 6)) for _ in range(10 if ctx.quick else 80)]
+    return [s for s in shapes if sum(s)]
+
+
+def rxn_roles(ctx, shape, k=None):
+    """roles for a shape; the k-th call cycles deterministically through the pool so that every pool molecule
+    (every bond count mod 8, cis/trans present/absent) occurs in a NON-last position"""
+    rng = ctx.rng
+    pool = rxn_parts(ctx)
+    total = sum(shape)
+    mols = [(pool[(k * 7 + i * 3) % len(pool)] if k is not None and i < total - 1 else rng.choice(pool)).copy() for i in range(total)]
+    return [mols[:shape[0]], mols[shape[0]:shape[0] + shape[1]], mols[shape[0] + shape[1]:]]
 
 
 def rxn_json(roles):
@@ -720,11 +766,16 @@ def corr_reactions(ctx):
     rng = ctx.rng
     pool = rxn_parts(ctx)
     b = Batch(ctx)
-    shapes = [(r, g, p) for r in range(0, 3) for g in range(0, 3) for p in range(0, 3) if r + g + p]  # the constructor rejects (0,0,0)
-    shapes += [(rng.randint(0, 6), rng.randint(0, 6), rng.randint(1, 6)) for _ in range(10 if ctx.quick else 80)]
+    shapes = rxn_shapes(ctx) * (2 if ctx.quick else 6)
     shapes += [(255, 0, 0), (0, 0, 255), (1, 255, 1)] + ([(256, 0, 0), (0, 256, 1)] if not ctx.quick else [(256, 0, 0)])
-    for shape in shapes:
-        roles = [[rng.choice(pool).copy() for _ in range(k)] for k in shape]
+    for k, shape in enumerate(shapes):
+        roles = rxn_roles(ctx, shape, k)
+        for side in roles[:-1] if roles[2] else roles:
+            for m in side:
+                nbm = sum(len(x) for x in m._bonds.values()) // 2
+                ctx.dist('rxn-nonlast-mol-bonds%%8=%d' % (nbm % 8))
+                if nbm and nbm % 8 == 0:
+                    ctx.dist('rxn-nonlast-mol-bonds=8k>0')
         rxn = ReactionContainer(roles[0], roles[2], roles[1])
         sus = rxn_json(roles) if sum(shape) < 30 else {'kind': 'rxn-shape', 'shape': list(shape)}
         ctx.dist('rxn-shape:%s' % ''.join('0' if k == 0 else '+' for k in shape))
@@ -1011,6 +1062,8 @@ def run_input(inp):
     if k == 'smiles':
         from chython import smiles
         return oracle_mol(smiles(inp['smiles']))
+    if k == 'lattice':
+        return oracle_mol(lattice(inp['atoms'], tuple(inp['steps'])))
     if k == 'rxn':
         roles = [[mol_from_json(m) for m in side] for side in inp['roles']]
         from chython import ReactionContainer
@@ -1057,7 +1110,7 @@ def search(ctx):
     if found:
         return
     common = gen_packtables.tables()[0]
-    for gen in (gen_limits, gen_real):
+    for gen in (gen_big, gen_limits, gen_real):
         for name, mol in gen(ctx):
             if ctx.elapsed() > budget:
                 break
@@ -1070,15 +1123,13 @@ def search(ctx):
                 if len(ctx.failures) > 20:
                     return
     from chython import ReactionContainer
-    pool = rxn_parts(ctx)
-    for r in range(3):
-        for g in range(3):
-            for p in range(3):
-                if r + g + p == 0:
-                    continue
-                roles = [[ctx.rng.choice(pool).copy() for _ in range(k)] for k in (r, g, p)]
-                res = oracle_rxn(ReactionContainer(roles[0], roles[2], roles[1]), roles)
-                found |= report(rxn_json(roles), res)
+    nshapes = 0
+    for k, shape in enumerate(rxn_shapes(ctx) * 3):
+        roles = rxn_roles(ctx, shape, k)
+        res = oracle_rxn(ReactionContainer(roles[0], roles[2], roles[1]), roles)
+        nshapes += 1
+        if report(rxn_json(roles), res) and len(ctx.failures) > 20:
+            break
     from chython.containers import _unpack_v0v2 as up
     for b in range(65536):
         res = run_input({'kind': 'half', 'bits': b})
@@ -1095,7 +1146,7 @@ def search(ctx):
         if report({'kind': 'refpack', 'index': i}, oracle_refpack(i)):
             if len(ctx.failures) > 20:
                 break
-    ctx.notes.append(f'search evaluated {seen} generated molecules, 26 reaction shapes, 65536 half patterns')
+    ctx.notes.append(f'search evaluated {seen} generated molecules, {nshapes} reactions, 65536 half patterns')
 
 
 def probe(inp):
